@@ -290,7 +290,7 @@ Proof. unfold U, cmd_exists. crush. Qed.
 Lemma upd_mkdir_loop args st : U (mkdir_loop args st) = s_updates st.
 Proof.
   revert st. induction args as [|a r IH]; intros st; simpl; [reflexivity|].
-  destruct (mkdir_all _ _ _); [|reflexivity]. rewrite IH. reflexivity.
+  destruct (mkdir_all _ _ _) as [t [|]]; [|reflexivity]. rewrite IH. reflexivity.
 Qed.
 Lemma upd_rm_loop args st : U (rm_loop args st) = s_updates st.
 Proof.
@@ -413,7 +413,7 @@ Lemma upd_run_lines cfg ls n f st :
   c_update cfg = false -> s_updates (snd (fst (run_lines cfg ls n f st))) = s_updates st.
 Proof.
   intros Hu. revert n f st. induction ls as [|l ls IH]; intros n f st; simpl.
-  - apply upd_end_bg.
+  - rewrite upd_end_bg. reflexivity.
   - destruct (is_comment l); [apply IH|].
     pose proof (upd_run_line cfg (at_line (S n) f st) l Hu) as Hl. unfold U in Hl.
     destruct (run_line cfg (at_line (S n) f st) l) as [s|s|s]; simpl in Hl.
@@ -428,7 +428,7 @@ Qed.
 Lemma upd_unpack u fs st : s_updates (fst (unpack u fs st)) = s_updates st.
 Proof.
   revert st. induction fs as [|[n d] r IH]; intros st; simpl; [reflexivity|].
-  destruct (mkdir_all _ _ _); [|reflexivity].
+  destruct (mkdir_all _ _ _) as [t1 [|]]; [|reflexivity].
   destruct u.
   - destruct (write_file_excl _ _ _ _); [rewrite IH|]; reflexivity.
   - destruct (write_file _ _ _ _); [rewrite IH|]; reflexivity.
@@ -439,7 +439,7 @@ Lemma upd_run_archive cfg work env a :
 Proof.
   intros Hu. unfold run_archive.
   assert (s_updates (fst (setup cfg work env a)) = []) as Hs.
-  { unfold setup. destruct (mkdir_all _ _ _); [|reflexivity]. rewrite upd_unpack. reflexivity. }
+  { unfold setup. destruct (mkdir_all _ _ _) as [t [|]]; [|reflexivity]. rewrite upd_unpack. reflexivity. }
   destruct (setup cfg work env a) as [st ok]. simpl in Hs. destruct ok; [|exact Hs].
   unfold run_script.
   pose proof (upd_run_lines cfg (script_lines (comment a)) 0 false st Hu) as H.
@@ -451,6 +451,27 @@ Theorem no_flag_no_write cfg work env file :
   c_update cfg = false -> f_change (run_file_full cfg work env file) = Untouched.
 Proof.
   intros Hu. unfold run_file_full. simpl. rewrite (upd_run_archive cfg work env (parse file) Hu). reflexivity.
+Qed.
+
+(* an update that cannot be stored ends the run as failed (never as passed or skipped), with
+   one more FAIL line, and nothing is written *)
+Theorem update_error_fails cfg work env file :
+  f_change (run_file_full cfg work env file) = UpdateError ->
+  (exists n, r_verdict (f_run (run_file_full cfg work env file)) = Fail n)
+  /\ r_fail_lines (f_run (run_file_full cfg work env file))
+     = r_fail_lines (run_file cfg work env file) ++ [s_lineno (r_final (run_file cfg work env file))].
+Proof.
+  unfold run_file_full, run_file. simpl.
+  destruct (change_of _ _); try discriminate. intros _. simpl. split; [|reflexivity].
+  destruct (r_verdict _); eauto.
+Qed.
+
+(* ... and in every other case the verdict is that of the script *)
+Theorem update_ok_verdict cfg work env file :
+  f_change (run_file_full cfg work env file) <> UpdateError ->
+  f_run (run_file_full cfg work env file) = run_file cfg work env file.
+Proof.
+  unfold run_file_full, run_file. simpl. destruct (change_of _ _); try reflexivity. congruence.
 Qed.
 
 (* ---- the re-run fix-point *)
@@ -526,8 +547,11 @@ Proof. vm_compute. repeat split; reflexivity. Qed.
 
 (* a content that needs quoting but has no final newline cannot be stored: nothing is written *)
 Definition f5 := text ["exec tshelper print '-- x --'"; "cmp stdout g.txt"; "-- g.txt --"; "old"].
-Example ex_unquotable : f_change (run_file_full cfg0 (b "/w") env0 f5) = UpdateError.
-Proof. vm_compute. reflexivity. Qed.
+Example ex_unquotable :
+  f_change (run_file_full cfg0 (b "/w") env0 f5) = UpdateError
+  /\ r_verdict (f_run (run_file_full cfg0 (b "/w") env0 f5)) = Fail 2
+  /\ r_fail_lines (f_run (run_file_full cfg0 (b "/w") env0 f5)) = [2].
+Proof. vm_compute. repeat split; reflexivity. Qed.
 
 (* the witness against the unrestricted fix-point: one entry compared with two outputs *)
 Definition f6 := text ["exec tshelper echo one"; "cmp stdout g.txt"; "exec tshelper echo two"; "cmp stdout g.txt";
